@@ -14,6 +14,7 @@ import tempfile
 from concurrent.futures import ThreadPoolExecutor
 
 HERE = os.path.dirname(os.path.dirname(os.path.abspath(__file__)))
+RECORD = '--record' in sys.argv
 
 
 def one(kind, name):
@@ -33,6 +34,14 @@ def one(kind, name):
         viol = [l for l in r.stdout.splitlines() if l.startswith('VIOLATION')]
         lines = r.stdout.splitlines()
         msgs = [lines[i - 1][:260] for i, l in enumerate(lines) if l.startswith('VIOLATION') and i > 0]
+        if kind == 'seeded' and RECORD:
+            rules = sorted({m.split(' ')[1] for m in msgs if len(m.split(' ')) > 1 and m.split(' ')[1].startswith('R')})
+            db = meta.get('detected_by')
+            if not isinstance(db, dict):
+                db = {'first_contact': db} if db else {}
+            db['now'] = ', '.join(rules)
+            meta['detected_by'] = db
+            json.dump(meta, open(os.path.join(d, 'meta.json'), 'w'), indent=1)
         if kind == 'seeded':
             ok = r.returncode == 1 and bool(viol)
         else:
@@ -45,7 +54,7 @@ def one(kind, name):
 def main():
     os.environ.setdefault('OMP_NUM_THREADS', '1')
     os.environ.setdefault('OPENBLAS_NUM_THREADS', '1')
-    args = sys.argv[1:]
+    args = [a for a in sys.argv[1:] if a != '--record']
     only = [a for a in args if a not in ('seeds', 'refactors')]
     which = [a for a in args if a in ('seeds', 'refactors')] or ['seeds', 'refactors']
     jobs = []
